@@ -78,16 +78,20 @@ RESULT_ARITY = {"jax.tree_util.tree_flatten": 2, "jax.experimental.jet.jet": 2, 
 
 
 def load_reference(S):
-    """Register the reference wrappers as modules of the program model (idempotent)."""
+    """A private copy of the program model with the reference wrappers added as modules.  (Never the shared model: rules that take a census over all
+    modules -- C16's stop_gradient sites -- must not see the reference text as library code.)"""
+    import copy
+
+    prog = copy.copy(S.p)
+    prog.modules = dict(S.p.modules)
     for short in MODULES:
         name = f"{REF_PREFIX}.{short}"
-        if name in S.p.modules:
-            continue
         path = os.path.join(REF_DIR, f"{short}.py.txt")
         if not os.path.exists(path):
             raise AnalysisError(f"reference wrappers {path} missing")
         with open(path, encoding="utf-8") as fh:
-            S.p.modules[name] = ModuleInfo(name, path, fh.read())
+            prog.modules[name] = ModuleInfo(name, path, fh.read())
+    return prog
 
 
 class _Canon:
@@ -261,7 +265,7 @@ def _diff(got, want, path="result"):
 
 def trusted_base_rules(chk, S, rule, prims, usage=None):
     """One obligation per met primitive that is a function of one of the six backend modules."""
-    load_reference(S)
+    ref_prog = load_reference(S)
     prims = set(prims)
     todo = list(prims)
     while todo:
@@ -274,7 +278,7 @@ def trusted_base_rules(chk, S, rule, prims, usage=None):
         short, _, name = prim.partition(".")
         if short not in MODULES or "." in name or prim in BC.SKIP:
             continue
-        ref = S.p.modules[f"{REF_PREFIX}.{short}"]
+        ref = ref_prog.modules[f"{REF_PREFIX}.{short}"]
         if name not in ref.functions:
             continue  # a re-exported constant or type, not a wrapper the domains give a meaning to
         try:
@@ -308,7 +312,7 @@ def trusted_base_rules(chk, S, rule, prims, usage=None):
                 scenarios.append(ever - omitted)
         verdict, details = True, []
         for sc in scenarios:
-            it = Interp(S.p)  # (not S.interp(): what these interpreters meet is not part of the check's own coverage)
+            it = Interp(ref_prog)  # (not S.interp(): what these interpreters meet is not part of the check's own coverage)
             canon = _Canon(it)
             try:
                 want = _call_wrapper(it, ref, name, sc, canon)
